@@ -66,7 +66,7 @@ NOISE = {"red": 0.05, "green": 0.08, "blue": 0.02}
 CH_AXES = {
     "nch": [2, 3],
     "wl": ["dict", "xarray"],
-    "pol": ["vector", "dict", "xarray", "xarray-raw"],
+    "pol": ["vector", "dict", "xarray", "xarray-raw", "xarray-yxz"],
     "n": ["scalar", "dict", "xarray"],
     "r": ["scalar", "dict"],
     "alpha": ["scalar", "dict"],
@@ -252,6 +252,12 @@ def _mk_param(kind, table, labels, order, vec=False):
                             dims=["illumination", "vector"],
                             coords={"illumination": labels,
                                     "vector": ["x", "y", "z"]})
+    if kind == "xarray-yxz":
+        # the same unit vectors with the components listed as y, x, z
+        full = xr.concat([to_vector(table[lab]) for lab in labels],
+                         xr.DataArray(labels, dims="illumination",
+                                      name="illumination"))
+        return full.sel(vector=["y", "x", "z"])
     if kind == "xarray":
         if vec:
             return xr.concat([to_vector(table[lab]) for lab in labels],
